@@ -709,7 +709,8 @@ def r08e(model, ctx):
     ctx.check(ok, R, "_PyTimeline.advance:selection", how,
               "advance() must fire exactly the wakers whose deadline equals the minimum", f"{PYSIM}:{fad.lineno}")
     fd = model.func(f"{PYSIM}::_PyTriggerState.add_delay_waker")
-    ok = "self._engine.state.set_delay_waker(trigger.interval.femtoseconds, waker)" in unparse(fd)
+    from ..engine.inline import propagate_locals as _pl
+    ok = "self._engine.state.set_delay_waker(trigger.interval.femtoseconds, waker)" in unparse(_pl(fd))
     ctx.check(ok, R, "_PyTriggerState.add_delay_waker", "delay in integer femtoseconds",
               "delay triggers must arm the timeline with interval.femtoseconds", f"{PYSIM}:{fd.lineno}")
 
